@@ -40,6 +40,17 @@ func ruleR17_1(r *Run) {
 		}
 		r.check(reachPost.From(f), fmt.Sprintf("%s.%s:reaches-PostExtents", relPkg(full(e.pkg)), e.name),
 			"the write entry reaches the extents update", "the write entry "+e.name+" stores voxels but never updates the advertised extents: written voxels can lie outside the extents reported to clients", w.fpos(f))
+		// and on every success path, not only on some
+		// imageblk calls PostExtents (which tests for growth itself) unconditionally; the label types test for
+		// growth first and only for scale 0, so for them reachability (above) is what can be stated soundly
+		if e.pkg != "datatype/imageblk" {
+			continue
+		}
+		pth := findPath(f, nil, func(in ssa.Instruction) bool {
+			return w.performs(in, []string{"PostExtents", "AdjustPoints", "AdjustIndices", "blockChangesExtents"}, 3)
+		}, successExit, nil)
+		r.check(pth == nil, fmt.Sprintf("%s.%s:extents-updated-on-every-success-path", relPkg(full(e.pkg)), e.name),
+			"every success exit of the write entry has passed the extents update or the test whether the written box grows the extents", "the write entry "+e.name+" can store voxels and return successfully without updating the advertised extents (e.g. only for one kind of write): voxels written outside the recorded extents are not covered by what info/metadata report", w.fpos(f), w.renderPath(pth)...)
 	}
 	// PostExtents: every success exit is reached through a read of the stored extents with the request ctx
 	var ctxParam *ssa.Parameter
